@@ -62,8 +62,12 @@ Definition level (e : expr) : Z :=
   end.
 
 (* simple assignment targets *)
-Definition assignable (e : expr) : bool :=
-  match e with EIdent _ | EMember _ _ _ _ => true | _ => false end.
+Fixpoint assignable (e : expr) : bool :=
+  match e with
+  | EIdent _ | EMember _ _ _ _ => true
+  | EGroup _ e' _ => assignable e'      (* a parenthesised simple target is a simple target *)
+  | _ => false
+  end.
 
 (* can this token continue an expression that is complete so far?  (the operators,
    call and member brackets; postfix ++/-- only on the same line) *)
@@ -568,7 +572,7 @@ Fixpoint wf_expr (e : expr) : bool :=
   match e with
   | ENil => false
   | EIdent _ | EInt _ | EFloat _ | EString _ _ | ERaw _ _ | EBool _ _ | ENull _ => true
-  | ELet _ _ v => match v with ENil => true | _ => wf_expr v end
+  | ELet _ _ _ => false      (* only as the initializer of a for statement, see wf_stmt *)
   | EBinary t l _ r =>
       match binop_level (t_type t) with
       | Some lv => (lv <=? level l) && (lv <? level r) && wf_expr l && wf_expr r
@@ -603,27 +607,13 @@ with wf_stmt (s : stmt) : bool :=
       end
   | SWhile _ c b => wf_expr c && single_statement_ok b && wf_stmt b
   | SFor _ i c u b =>
-      (match i with ENil => true | _ => wf_expr i end) &&
-      (match c with ENil => true | ELet _ _ _ => false | _ => wf_expr c end) &&
-      (match u with ENil => true | ELet _ _ _ => false | _ => wf_expr u end) &&
+      (match i with
+       | ENil => true
+       | ELet _ _ v => match v with ENil => true | _ => wf_expr v end
+       | _ => wf_expr i end) &&
+      (match c with ENil => true | _ => wf_expr c end) &&
+      (match u with ENil => true | _ => wf_expr u end) &&
       single_statement_ok b && wf_stmt b
-  end.
-
-(* `let` expressions only as the initializer of a for statement *)
-Fixpoint no_let_expr (e : expr) : bool :=
-  match e with
-  | ELet _ _ _ => false
-  | EBinary _ l _ r => no_let_expr l && no_let_expr r
-  | EUnary _ _ r => no_let_expr r
-  | EPostfix _ l _ => no_let_expr l
-  | EGroup _ e _ => no_let_expr e
-  | ECall _ f args => no_let_expr f && forallb no_let_expr args
-  | EMember _ o p _ => no_let_expr o && no_let_expr p
-  | EAssign _ l v => no_let_expr l && no_let_expr v
-  | ECompound _ l _ v => no_let_expr l && no_let_expr v
-  | EArray _ es _ => forallb no_let_expr es
-  | EObject _ ps _ => forallb (fun kv => no_let_expr (fst kv) && no_let_expr (snd kv)) ps
-  | _ => true
   end.
 
 Definition wf_program (p : program) : bool := wf_stmts wf_stmt (p_stmts p).
